@@ -34,8 +34,35 @@ def c16_client(tier):
 
 
 def c16(tier):
-    rc, _ = c16_client(tier)
-    return rc
+    """Client part (this family) + server part (engine.props_upgrade.c16_server, if present); exit codes combined."""
+    import importlib, json, os
+    rc, cov = c16_client(tier)
+    rcs, covs = 0, None
+    try:
+        pu = importlib.import_module("engine.props_upgrade")
+        server = getattr(pu, "c16_server", None)
+    except Exception:
+        server = None
+    if server:
+        r = server(tier)
+        rcs, covs = (r if isinstance(r, tuple) else (r, None))
+        # record the server part in the evidence of C16
+        path = os.path.join(core.EVID, "C16.json")
+        try:
+            ev = json.load(open(path))
+            ev["coverage"]["server_part"] = covs if covs is not None else "engine.props_upgrade.c16_server (exit %d)" % rcs
+            if covs:
+                for k in ("states", "transitions", "traces_validated_against_impl", "evaluations"):
+                    if isinstance(covs.get(k), int):
+                        ev["coverage"][k] = ev["coverage"].get(k, 0) + covs[k]
+            if rcs == 1:
+                ev["violations"] = ev.get("violations", 0) + 1
+            json.dump(ev, open(path, "w"), indent=1)
+        except (OSError, ValueError, KeyError):
+            pass
+    if rc == 2 or rcs == 2:
+        return 2
+    return 1 if (rc == 1 or rcs == 1) else 0
 
 
 def c18(tier):
